@@ -5,7 +5,10 @@ go 1.26.0
 require (
 	github.com/go-git/go-billy/v6 v6.0.0-alpha.2
 	github.com/go-git/go-git/v6 v6.0.0
+<<<<<<< HEAD
 	github.com/pjbgf/sha1cd v0.6.0
+=======
+>>>>>>> b12
 )
 
 require (
